@@ -457,8 +457,16 @@ pub fn make(plan: &str, seed: u64, count: usize, tier: &str, wave: u64) -> (Vec<
             }, tier, wave)
             .unwrap();
             let nl = if plan == "errors" { count / 4 } else { count / 5 };
-            for (k, (g, _)) in profile_grammars(&prof, seed, count - nl, wave, &mut stats).into_iter().enumerate() {
+            // the error plan also needs field-rich grammars (multi-field optionals / closures have their own templates)
+            let nf = if plan == "errors" { count / 4 } else { 0 };
+            for (k, (g, _)) in profile_grammars(&prof, seed, count - nl - nf, wave, &mut stats).into_iter().enumerate() {
                 specs.push(spec(format!("g{:04}", k), plan, g));
+            }
+            if nf > 0 {
+                let pf = prof_for("fields", tier, wave).unwrap();
+                for (k, (g, _)) in profile_grammars(&pf, seed, nf, wave, &mut stats).into_iter().enumerate() {
+                    specs.push(spec(format!("f{:04}", k), plan, g));
+                }
             }
             specs.extend(leftrec_specs(seed, nl, wave, "l", &mut stats));
         }
